@@ -147,10 +147,10 @@ Section Data.
 
   Definition no_overlap (s : gst) : Prop := forall i j, active s i -> active s j -> i = j.
 
-  Definition answer (k : kind) (c : cfgstate) (v : N) : result :=
-    match k with KAuction => auction_block c v | _ => proposer_config c v end.
+  Definition answer (k : kind) (c : cfgstate) (v : N) : result := answer_of k c v.
 
-  Definition is_reader_kind (k : kind) : bool := match k with KLookup | KAuction => true | _ => false end.
+  Definition is_reader_kind (k : kind) : bool :=
+    match k with KLookup | KAuction | KLookupNA | KBid | KFwd | KUnblind => true | _ => false end.
 End Data.
 
 Section DataProof.
